@@ -365,8 +365,19 @@ func (w *World) checkLiveness() {
 		}, discard)
 		w.emitProbe(5, c, false, orc, fmt.Sprintf("11 %d %d %d %s", p.u, p.v, p.d, intStr(bal)))
 	}
-	// claiming everything, in two orders, always succeeds (C12's observable)
-	ps := w.positions()
+	// claiming everything, in two orders, always succeeds (C12's observable).  Positions of an asset
+	// that is no longer whitelisted (deleted with nothing staked; dust records remain) have nothing to
+	// claim and their claim is refused as "unknown asset": not a matter of pool solvency
+	listed := map[int64]bool{}
+	for _, d := range w.assetIDs() {
+		listed[d] = true
+	}
+	var ps []pos
+	for _, p := range w.positions() {
+		if listed[p.d] {
+			ps = append(ps, p)
+		}
+	}
 	for _, rev := range []bool{false, true} {
 		order := append([]pos{}, ps...)
 		if rev {
